@@ -4,6 +4,7 @@ import MgpuModel.C02Lds
 import MgpuModel.C02Cfg
 import MgpuModel.C02Bar
 import MgpuModel.C02L1
+import MgpuModel.C02L1c
 import MgpuModel.C02Txn
 /-!
 C02 — timing mode is functionally transparent.  Component models, each a pair
@@ -545,6 +546,7 @@ def handle (line : String) : String :=
   | "c02" :: "lds" :: t => Lds.handleLds t
   | "c02" :: "cfg" :: t => Cfg.handleCfg t
   | "c02" :: "bar" :: t => Bar.handleBar t
+  | "c02" :: "l1" :: "cache" :: t => L1c.handle t
   | "c02" :: "l1" :: t => L1.handleL1 t
   | "c02" :: "txn" :: t => Txn.handleTxn t
   | _ => "bad"
